@@ -283,6 +283,12 @@ def compare(case, obs, exp, hang=None):
                 must.append((["C02"], "rejection carries type %s; the offending attributes are %s" % (op.get("type"), exp["causes"])))
         if ep.get("exact") and (op.get("err") != "Truncated" or op.get("expected") != ep["expected"] or op.get("actual") != ep["actual"]):
             must.append((["C02", "C17"], "truncation reported as %s, specification %s" % (json.dumps(op), json.dumps(ep))))
+        # whichever truncation is reported, its byte counts describe the buffer: what is available is what was handed in, and
+        # more than that is needed (how much more is as-is for a cut inside the body)
+        # (a FINGERPRINT of a wrong length may be reported as a truncated VALUE, with the value's counts: as-is, see App. B)
+        wrong_len_fp = "InvalidAttributeData" in [c[0] for c in exp.get("causes", [["InvalidAttributeData"]])]
+        if op.get("err") == "Truncated" and not wrong_len_fp and not (op.get("actual") == len(case["bytes"]) and isinstance(op.get("expected"), int) and op["expected"] > op["actual"]):
+            must.append((["C02"], "truncation reported with byte counts that do not describe the buffer: %s for %d bytes" % (json.dumps(op), len(case["bytes"]))))
         e2 = {k: v for k, v in ep.items() if k != "exact"}
         if e2 != op:
             asis.append("error detail: impl %s spec %s" % (json.dumps(op), json.dumps(e2)))
